@@ -43,7 +43,7 @@ ENTRIES = {
 
 COMBOS_QUICK = [(24, 2, 1, 12, "2,4,8"), (20, 1, 0, 20, "2,4"), (30, 3, 2, 8, "2,4,8,16")]
 COMBOS_THOROUGH = COMBOS_QUICK + [(40, 3, 5, 30, "2,4,8,16,32,64"), (24, 1, 2, 6, "2,8,32")]
-OWNER = {"mark": "C33", "req": "C33", "started": "C33", "ans": "C33", "meta": "C34", "result": "C33", "share_to": "C33"}
+OWNER = {"fatal": "C33", "bad": "C33", "mark": "C33", "req": "C33", "started": "C33", "ans": "C33", "meta": "C34", "result": "C33", "share_to": "C33"}
 INV_OWNER = {"MarkedOnlyAfterAll": "C33", "MetaCoversOngoing": "C33", "SharesOk": "C33", "StartOk": "C34",
              "ConcurrencyBound": "C34"}
 
@@ -68,7 +68,7 @@ def run(ck):
         ck.cov["distinct_nontrivial"] += p["distinct_nontrivial"]
         ck.cov["samples"] += p["samples"][:2]
         for line in open(trace):
-            if '"name":"fatal"' in line or '"name":"badreq"' in line:
+            if '"name":"badreq"' in line:
                 ck.violation({"kind": "fatal-or-bad-request"}, line[:300], json.loads(line))
         cfg = ck.cfg_with("Trace_Daser.cfg", {"Lim": lim, "Extra": extra, "WSamp": k}, name=f"Trace_Daser_{i}.cfg")
 
